@@ -17,11 +17,37 @@ ENGINES["srvsim"] = {
     "stub": ["method implementations, Shutdowner, Returner for RecvCall (instrumented recorders)", "scheduler (simrt baton in a testing/synctest bubble)"],
 }
 
+ENGINES["streamsim"] = {
+    "real": ["internal/packed (Pack, Unpack, Reader - built from a copy of the working tree's files as package simpacked)", "capnp.Encoder / Decoder / Marshal / Unmarshal / UnmarshalPacked (message.go)"],
+    "stub": ["byte pipe between writer and reader (simio: chunking, zero reads, EOF or error at byte k)", "bufio size knob"],
+}
+
+RULE_STREAM = ("each run generates one stream from the tape (payload grammar / hostile bytes / encoder output) and then enumerates its cut points "
+               "(every byte offset for streams up to the stated size, sampled beyond) plus one read error; a run is non-trivial if at least one cut or fault "
+               "was applied; distinct = distinct hashes of (stream bytes, pipe configuration)")
+
 RULE_SCHED = ("each run is one seeded schedule+workload drawn from the choice tape; a run is non-trivial if it had at least one "
               "preemptive context switch or fired fault; distinct = distinct hashes of the full decision trace (schedule choices, "
               "fired faults, fired events) among non-trivial runs")
 
 CHECKS = {
+    "C13": {
+        "claim": "per generated packed stream, every cut point (EOF at byte k; exhaustive for streams up to 512 bytes) and a read error are injected between packer and unpacker; one-shot Unpack, the streaming Reader (all read sizes, ReadWord, bufio sizes, chunkings, zero-length reads) and an independent implementation of the packing spec must agree on output and acceptability, truncation must surface as an error without invented bytes, and output is bounded by the spec",
+        "engine": "streamsim", "level": "fault_enumeration",
+        "budget": {"quick": 20, "thorough": 480},
+        "rule": RULE_STREAM,
+        "faults": ["eof_at", "read_err", "zero_read", "read_chunk"],
+        "coverage_extra": {"explanation": "exhaustive is false for the batch as a whole: cut points are enumerated exhaustively per stream (see probes.streams_fully_enumerated and probes.cut_points_checked), streams themselves are sampled"},
+    },
+    "C14": {
+        "claim": "per generated sequence of 1-5 messages written by the real Encoder (packed or not), every cut point of the byte stream (exhaustive up to 1 KiB) and a read error are injected; the real Decoder (with and without buffer reuse, several MaxMessageSize values, all chunkings) must return exactly the complete frames, io.EOF only at a frame boundary and an error anywhere else; hostile headers are spliced in and the allocation of Decode and Unmarshal is bounded with runtime.MemStats",
+        "engine": "streamsim", "level": "fault_enumeration",
+        "budget": {"quick": 20, "thorough": 480},
+        "rule": RULE_STREAM,
+        "faults": ["eof_at", "read_err", "hdr_tamper", "read_chunk"],
+        "vlimit_kb": 2 * 1024 * 1024,
+        "coverage_extra": {"explanation": "exhaustive is false for the batch as a whole: cut points are enumerated exhaustively per stream (probes.streams_fully_enumerated), streams are sampled"},
+    },
     "C12": {
         "claim": "seeded search over schedules of 1-4 caller tasks against a real server.Server (every mutex acquisition and channel wake-up is a schedule point) with tape-chosen policies, ack/return timings, cancellations, pipelined calls on unreturned answers and shutdown while calls run; start order, ack gating, the concurrency cap, exactly-once completion with the implementation's own result, pipelined delivery order and shutdown semantics are checked at every event and over the recorded history",
         "engine": "srvsim", "level": "exploration",
@@ -47,6 +73,7 @@ CHECKS = {
 
 
 ENGINE_KIND = {
+    "streamsim": "deterministic simulation of writer -> faulty byte pipe -> reader for the packed codec and the stream framing, with per-stream cut-point enumeration",
     "capsim": "deterministic simulation of tasks sharing capnp.Client handles, weak refs and client promises",
     "promsim": "deterministic simulation of pipelined calls and resolution on capnp.Promise",
     "srvsim": "deterministic simulation of callers, implementations and shutdown of server.Server",
